@@ -7,6 +7,8 @@ expand() columns = the 2^n distinct products, entangled <=> no weight-one group 
 import itertools
 import random
 
+import numpy as np
+
 from ..core import Partial, call, exc_name
 from ..monitor import contracts
 from ..oracle import groups, lcorbit
@@ -86,6 +88,33 @@ def eq_call(p, a, b, n, rnd, near=False):
     drain(p, None)
 
 
+def object_sequence(p, gens, n, rnd):
+    """The predicates on ONE object, interleaved with the other things a user does with it (classification,
+    readout / preparation requests, printing).  The contracts judge every predicate evaluation."""
+    from htstabilizer.lc_classes import determine_lc_class
+    from htstabilizer.stabilizer_circuits import get_readout_circuit, get_preparation_circuit
+    from ..oracle import conn as oconn
+    s = stab(gens, n, rnd)
+    other = stab(present(gens, n, rnd), n, rnd)
+    steps = [lambda: s.expand(), lambda: determine_lc_class(s).id(), lambda: s.expand(), lambda: s.is_qubit_entangled(rnd.randrange(n)),
+             lambda: repr(s), lambda: get_readout_circuit(s, rnd.choice(oconn.configs_for(n))), lambda: s.expand(),
+             lambda: s.is_equivalent_mod_phase(other), lambda: get_preparation_circuit(s, rnd.choice(oconn.configs_for(n))),
+             lambda: s.to_list(), lambda: s.expand(), lambda: other.is_equivalent_mod_phase(s), lambda: s.is_qubit_entangled(rnd.randrange(n))]
+    first = None
+    for k, st in enumerate(steps):
+        ok, r = call(st)
+        p.evals += 1
+        if k == 0 and ok:
+            first = (np.array(r[0], copy=True), np.array(r[1], copy=True), r)
+    if first is not None:
+        # retention: the arrays handed out by the first expand() must not have been edited by the later calls
+        if not (np.array_equal(first[0], first[2][0]) and np.array_equal(first[1], first[2][1])):
+            p.violate("expand result-changed-later", "the arrays returned by expand() for %s were modified by later calls on the same object" % ws.strings(gens, n),
+                      {"a": ws.strings(gens, n), "predicate": "sequence"})
+    p.counters["call sequences on one object"] += 1
+    drain(p, None)
+
+
 def work(task):
     contracts.install("htstabilizer", which=("predicates",))
     contracts.take()
@@ -140,6 +169,8 @@ def work(task):
                     p.counters["entangled -> %s" % (r if ok else "exc")] += 1
                 if lab:
                     p.distinct_count += 1
+                if lab and rnd.random() < (0.2 if n <= 4 else 0.01):
+                    object_sequence(p, gens, n, rnd)
                 if n <= 4 or rnd.random() < 0.05:
                     ok, r = call(s.expand)
                     p.evals += 1
@@ -165,6 +196,8 @@ def work(task):
                 p.evals += 1
                 p.counters["expansions"] += 1
             p.nontrivial(("ent", n, groups.canon(m["gens"], n)))
+            if i % 3 == 0:
+                object_sequence(p, m["gens"], n, rnd)
             drain(p, None)
     p.extra["contract_evals"] = +contracts.EVALS
     contracts.EVALS.clear()
@@ -196,6 +229,8 @@ def replay(cj):
     from htstabilizer.stabilizer import Stabilizer
     sa = Stabilizer(list(cj["a"]))
     pred = cj.get("predicate", "")
+    if pred == "sequence" or True:
+        object_sequence(p, a, n, rnd)
     if "equivalent" in pred and "b" in cj:
         call(sa.is_equivalent_mod_phase, Stabilizer(list(cj["b"])))
     elif "entangled" in pred:
